@@ -100,7 +100,24 @@ def run(ck, prog, tier, load):
     ap = prog.one(r"^actix_http::header::map::HeaderMap::append$")
     occ = [bb for bb, t in ap.calls(r"map::Value::append$")]
     vac = [bb for bb, t in ap.calls(r"map::Value::one$")]
-    ok = bool(occ) and bool(vac) and any(c[0] == "discr" and lab == "Occupied" for c, lab, a in ap.guards(occ[0])) and any(c[0] == "discr" and lab == "Vacant" for c, lab, a in ap.guards(vac[0]))
+    LOOKUP = r"HashMap.*::(get_mut|get)$"
+
+    def present(c, lab):
+        if c[0] == "discr" and lab == "Occupied":
+            return True
+        if c[0] == "discr" and lab == "Some" and e_calls(c, LOOKUP):
+            return True
+        bt = bool_test(c, lab)
+        return bool(bt) and bt[0][0] == "call" and rx(r"HashMap.*::contains_key$").search(bt[0][1] or "") is not None and bt[1] is True
+
+    def absent(c, lab):
+        if c[0] == "discr" and lab == "Vacant":
+            return True
+        if c[0] == "discr" and lab == "None" and e_calls(c, LOOKUP):
+            return True
+        bt = bool_test(c, lab)
+        return bool(bt) and bt[0][0] == "call" and rx(r"HashMap.*::contains_key$").search(bt[0][1] or "") is not None and bt[1] is False
+    ok = bool(occ) and bool(vac) and any(present(c, lab) for c, lab, a in ap.guards(occ[0])) and any(absent(c, lab) for c, lab, a in ap.guards(vac[0]))
     ck.ob("C18-b.append-extends", "HeaderMap::append", ok, ap, occ[0] if occ else None, "append pushes onto the existing list (Occupied) or creates a one-element list (Vacant)")
     ins = prog.one(r"^actix_http::header::map::HeaderMap::insert$")
     ok = any(True for _ in ins.calls(r"map::Value::one$")) and any(True for _ in ins.calls(r"HashMap.*::insert$")) and any(True for _ in ins.calls(r"map::Removed::new$"))
